@@ -12,6 +12,7 @@ import (
 	metav1 "k8s.io/apimachinery/pkg/apis/meta/v1"
 	"k8s.io/apimachinery/pkg/runtime"
 	"k8s.io/apimachinery/pkg/types"
+	"k8s.io/utils/ptr"
 	"sigs.k8s.io/controller-runtime/pkg/client"
 	"sigs.k8s.io/controller-runtime/pkg/controller/controllerutil"
 
@@ -96,7 +97,12 @@ func (r *objectSetRemotePhaseReconciler) Teardown(
 		}
 	}
 
-	err = r.client.Delete(ctx, objectSetPhase.ClientObject())
+	// Delete with preconditions, so a phase object that was re-created or
+	// re-owned since it was inspected above is not removed.
+	err = r.client.Delete(ctx, objectSetPhase.ClientObject(), client.Preconditions{
+		UID:             ptr.To(objectSetPhase.ClientObject().GetUID()),
+		ResourceVersion: ptr.To(objectSetPhase.ClientObject().GetResourceVersion()),
+	})
 	if errors.IsNotFound(err) {
 		return true, nil
 	}
